@@ -28,7 +28,9 @@ META = {
         "applies iff for some symmetric image every needed pattern contains a basis element and every other "
         "element has the prescribed form); InsertionEncodingStrategy iff the C13 oracle; FinitelyManySimples iff "
         "PinWords.has_finite_simples (whose semantics is C16); metamorphic invariance of the reported set. "
-        "Non-trivial: some core strategy applies. Distinct = basis content."
+        "Form sweep: each strategy's needed patterns plus every single further element of length 2-7 (8 thorough), "
+        "applies() of all eight strategies and the quick search against the oracle. "
+        "Non-trivial: some core strategy applies (form sweep: the further element has at least 5 points). Distinct = basis content."
     ),
     "assumptions": [
         "basis elements have length >= 2: for the length-1 permutation the form '1 (+) alpha, alpha indecomposable' has no agreed meaning (alpha empty) and the library asserts non-emptiness in its helpers",
